@@ -12,10 +12,14 @@ Local Open Scope Z_scope.
 Definition xF (s : sx) : float := f_of_me (xZ (xnth 0 s)) (xZ (xnth 1 s)).
 Definition xF32 (s : sx) : spec_float := f32_of_me (xZ (xnth 0 s)) (xZ (xnth 1 s)).
 
+(** canonical (odd mantissa, exponent) form, as harness/vt/fl.py [me] *)
+Fixpoint strip2 (p : positive) (e : Z) : positive * Z :=
+  match p with xO q => strip2 q (e + 1) | _ => (p, e) end.
+
 Definition oSF (f : spec_float) : sx :=
   match f with
   | S754_zero _ => L [I 0; I 0]
-  | S754_finite s m e => L [I (if s then Zneg m else Zpos m); I e]
+  | S754_finite s m e => let '(m', e') := strip2 m e in L [I (if s then Zneg m' else Zpos m'); I e']
   | S754_infinity s => L [I (if s then -1 else 1); I 99999]
   | S754_nan => L [I 0; I 99999]
   end.
@@ -35,13 +39,21 @@ Definition oRuns (l : list Z) : sx :=
 
 Definition oPairs (l : list (Z * Z)) : sx := L (map (fun p => L [I (fst p); I (snd p)]) l).
 
+(** order-sensitive checksum of a sequence of floats (the 65536-value table is
+    compared by checksum per block; printing it would dominate the run time) *)
+Definition hmask : Z := 4611686018427387903.   (* 2^62 - 1 *)
+Definition hstep (h v : Z) : Z := Z.land (h * 1000003 + v) hmask.
+Definition hSF (h : Z) (f : spec_float) : Z :=
+  match oSF f with L [I m; I e] => hstep (hstep h m) e | _ => hstep h (-1) end.
+
 Definition run (s : sx) : sx :=
   let a := fun n => xnth n s in
   match xZ (a 0%nat) with
-  | 1 => (* pcm block: lo n -> for each v in [lo, lo+n): (m e back) *)
-      L (map (fun v => let f := i16_to_f32 v in
-                       L [oSF f; oOptZ (f32_to_i16 f)])
-             (zrange (xZ (a 1%nat)) (xZ (a 2%nat))))
+  | 1 => (* pcm block: lo n -> (checksum of the float32 values, runs of the values converted back) *)
+      let vs := zrange (xZ (a 1%nat)) (xZ (a 2%nat)) in
+      let fs := map i16_to_f32 vs in
+      L [I (fold_left hSF fs 0);
+         oRuns (map (fun f => match f32_to_i16 f with Some z => z | None => -99999 end) fs)]
   | 2 => (* float32 samples -> int16 *)
       L (map (fun y => oOptZ (f32_to_i16 (xF32 y))) (xL (a 1%nat)))
   | 3 => (* float64 samples -> int16 *)
